@@ -81,6 +81,14 @@ CLAIMED = {
         'Vec::extend(Option)) by their std semantics; the row-limit assert as an abort; FreeWord and IntPartition by the contracts proved in units free_words / partitions '
         '(run as dependencies). Not formalised: the group-theoretic identification of the universal transitive table with G/H (the number [G:H] itself is compared by the bounded stand-in); termination.',
    ref='5 C11', technique=TECH),
+ 'C13': dict(
+   text='Unbounded proof (Verus/Z3) over the real body of intersection_table (with CosetTable::{new, get, join, compact} under the contracts of C11): for any two valid tables over '
+        'the same generators the result is a valid table whose rows are paired injectively with pairs (row of ta, row of tb), row 0 with (0, 0), compatibly with every generator '
+        '-- the orbit of the pair of base rows in the product action -- and consequently a word fixes its row 0 exactly when it fixes row 0 of both inputs (lemma over the contract).',
+   note='Trusted: Verus+Z3, vstd; all_gens by its std semantics; `for i in 0..` in desugared form (R19); the product of the two row counts is at most isize::MAX/2 (stated precondition); '
+        'termination. NOT decided by contracts (bounded stand-in only): the stabiliser presentation (stabilizer.rs: HashMap / flat_map / BTreeMap::entry code outside the verifier; '
+        '"presents a group isomorphic to the stabiliser" is not a first-order postcondition) and the core table (induced_table is generic over hashed closures).',
+   ref='5 C13', technique=TECH),
  'C05': dict(
    text='Unbounded proof (Verus/Z3) over the real bodies of build_set, build_sym_using_ms, orbit_reps_2d, cover and oriented_cover: for every complete base '
         'and every sheet map that is a consistent family of sheet permutations, the result is a well-formed complete symbol of nr_sheets*size chambers whose '
@@ -99,7 +107,6 @@ NA = {
  'C08': 'Gauss-Bonnet links two independent computations built on Rational64, iterator sums, HashSet boundary tracing and string assembly; no spec function short of re-deriving the theorem',
  'C09': '"defines the same group" is not a first-order postcondition of the code; the one decidable clause (all returned words are freely reduced) is a corollary of the FreeWord type invariant and is reported under C10',
  'C12': 'completeness / pairwise inequivalence of a backtracking search',
- 'C13': 'correctness is "presents a group isomorphic to ..."; induced_table is generic over hashed closures',
  'C14': 'statement is about invariant factors of a lattice; the isize arithmetic of the code genuinely overflows for large entries, the final chain uses chain/repeat',
  'C15': 'existence and torus-ness of a cover found by search',
  'C16': 'manifold topology preserved by a rewriting system',
